@@ -8,6 +8,10 @@ static A: verifkit::alloc::Tracking = verifkit::alloc::Tracking;
 mod c10;
 mod c11;
 mod c12;
+mod c13;
+mod c14;
+mod c15;
+mod c16;
 
 fn main() {
     verifkit::quiet_panics();
@@ -17,6 +21,10 @@ fn main() {
         "C10" => c10::run(&ctx),
         "C11" => c11::run(&ctx),
         "C12" => c12::run(&ctx),
+        "C13" => c13::run(&ctx),
+        "C14" => c14::run(&ctx),
+        "C15" => c15::run(&ctx),
+        "C16" => c16::run(&ctx),
         p => {
             eprintln!("rtprops: unknown property {p}");
             2
